@@ -26,6 +26,7 @@ pub struct Lazy<T> {
 
 impl<T: 'static> Lazy<T> {
     /// Mock implementation of `lazy_static::Lazy::get`.
+    #[track_caller]
     pub fn get(&'static self) -> &'static T {
         // This is not great. Specifically, we're returning a 'static reference to a value that
         // only lives for the duration of the execution. Unfortunately, the semantics of lazy
@@ -43,23 +44,34 @@ impl<T: 'static> Lazy<T> {
         match unsafe { self.try_get() } {
             Some(v) => v,
             None => {
+                // While calling init, we may yield to the scheduler, in which case some _other_
+                // thread may reach this point too. Like the real lazy_static (which takes a
+                // lock before initializing the new value, and readers wait on that lock if they
+                // encounter it), only the first thread runs the initializer; the others wait
+                // until it is done.
+                let first = rt::execution(|execution| {
+                    let thread = execution.threads.active_id();
+                    execution.lazy_statics.start_init(self, thread)
+                });
+
+                if !first {
+                    rt::block(location!());
+                    return unsafe { self.try_get() }
+                        .expect("woken before the lazy static was initialized");
+                }
+
                 // Init the value out of the `rt::execution`
                 let sv = crate::rt::lazy_static::StaticValue::new((self.init)());
-
-                // While calling init, we may have yielded to the scheduler, in which case some
-                // _other_ thread may have initialized the static. The real lazy_static does not
-                // have this issue, since it takes a lock before initializing the new value, and
-                // readers wait on that lock if they encounter it. We could implement that here
-                // too, but for simplicity's sake, we just do another try_get here for now.
-                if let Some(v) = unsafe { self.try_get() } {
-                    return v;
-                }
 
                 rt::execution(|execution| {
                     let sv = execution.lazy_statics.init_static(self, sv);
 
                     // lazy_static uses std::sync::Once, which does a swap(AcqRel) to set
                     sv.sync.sync_store(&mut execution.threads, Ordering::AcqRel);
+
+                    for waiter in execution.lazy_statics.finish_init(self) {
+                        execution.threads[waiter].set_runnable();
+                    }
                 });
 
                 unsafe { self.try_get() }.expect("bug")
